@@ -560,6 +560,71 @@ class Gen:
             return {'k': 'group', 's': inner}
         return {'k': w, 's': inner}
 
+    def s_lazy(self, v, depth, top=False):
+        """a lazily evaluated stream -- Iter(sub) / Iter().map(sub) -- built under a mode wrapper that is a
+        NON-final link of a Pipe (a chain in every mode; at top level also a tuple) and consumed by a later
+        link (`list`, `tuple`); the sub-spec is a mode probe or a mode-sensitive object, so the mode it is
+        evaluated in (at consumption time) shows.  Between creation and consumption only steps that log
+        nothing and catch nothing (T, Spec(T), a wrapper around T, an item access into a container holding
+        the stream), and the consumer always consumes (in a chain that may run in match mode it is
+        Auto(list): a bare type is an isinstance test there).  Controls: the stream consumed inside the
+        wrapper, the wrapper in last position."""
+        r = self.rng
+        xs = []
+        if not (isinstance(v, (list, tuple)) and 0 < len(v) <= 4):
+            recs = [r.choice([{'a': i, 'b': [i]}, {'a': {'a': i}}, i, [i, 'a']]) for i in range(r.randint(1, 3))]
+            if r.random() < 0.5:
+                recs = [{'a': i + 1, 'b': 'bv'} for i in range(r.randint(1, 3))]
+            xs.append({'k': 'val', 'v': jv(recs)})
+            v = recs
+        item = v[0]
+        sub = self.spec(item, max(depth - 1, 0)) if r.random() < 0.25 else self.modeprobe(item, 0)
+        it = {'k': 'iter', 's': sub, 'map': r.random() < 0.3}
+        W = lambda m, x: {'k': 'match', 's': x, 'dflt': None} if m == 'match' else ({'k': m, 's': x} if m else x)
+        T0 = {'k': 't', 'steps': []}
+        chainkind = lambda: r.choice(['tuple', 'pipe']) if top else 'pipe'
+
+        def consumer(mode):
+            """`mode`: the mode the consuming link runs in (None: the surrounding one)"""
+            ty = {'k': 'ty', 'name': r.choice(['list', 'list', 'tuple'])}
+            if mode in ('fill', 'auto') or (mode is None and top):
+                return ty if r.random() < 0.7 else {'k': 'auto', 's': ty}
+            return {'k': 'auto', 's': ty}
+
+        def passthrough():
+            return [r.choice([T0, {'k': 'specW', 's': T0, 'scope': []}, W(r.choice(['fill', 'auto']), T0),
+                              {'k': 'pipe', 'xs': [T0]}]) for _ in range(r.choice([0, 0, 1, 2]))]
+        m1 = r.choice(['fill', 'fill', 'auto', 'match', None])
+        m2 = r.choice(['fill', 'auto', 'auto', 'match', None])
+        p = r.random()
+        if p < 0.4:
+            # (W(Iter(sub)), .., consumer)
+            wrapped = r.random() < 0.3
+            body = [W(m1, it)] + passthrough() + [consumer(m2 if wrapped else None)]
+            if r.random() < 0.5:
+                body.append(self.modeprobe(v, 0) if r.random() < 0.5 else self.probe())
+            spec = W(m2, {'k': 'pipe', 'xs': body}) if wrapped else {'k': chainkind(), 'xs': body}
+        elif p < 0.65:
+            # W2(Pipe(W1(Iter(sub)), .., consumer)): the chain itself runs in a non-default mode
+            spec = W(m2, {'k': 'pipe', 'xs': [W(m1, it)] + passthrough() + [consumer(m2)]})
+        elif p < 0.8:
+            # the stream travels inside a container built under the wrapper
+            if r.random() < 0.6:
+                box, get = {'k': 'dict', 'es': [[{'k': 'str', 's': 'k'}, it]]}, 'k'
+                first = W(r.choice(['fill', 'auto']), box)
+            else:
+                first, get = {'k': 'fill', 's': {'k': 'list', 'xs': [it]}}, 0
+            spec = {'k': chainkind(), 'xs': [first, {'k': 't', 'steps': [['[', jv(get)]]}] + passthrough() + [consumer(None)]}
+        elif p < 0.9:
+            # control: consumed inside the wrapper
+            spec = W(m1, {'k': 'pipe', 'xs': [it, consumer(m1)]})
+        else:
+            # control: the wrapper is the last link
+            spec = {'k': chainkind(), 'xs': [T0, W(m1, {'k': 'pipe', 'xs': [it, consumer(m1)]})]}
+        if xs:
+            return {'k': chainkind(), 'xs': xs + [spec]}
+        return spec
+
     def s_fillshape(self, v, depth):
         """Fill over a literal container shape with T / Spec leaves"""
         r = self.rng
